@@ -75,6 +75,14 @@ int main(int argc, char **argv) {
         std::vector<uint32_t> sup;
         for (uint32_t cp = 0x20; cp < 0x3000; ++cp) if (gr_face_is_char_supported(ref.face, cp, 0)) sup.push_back(cp);
         for (uint32_t cp = 0xFB50; cp < 0xFF00; ++cp) if (gr_face_is_char_supported(ref.face, cp, 0)) sup.push_back(cp);
+        {   // supplementary-plane characters (format 12 path of the cmap) where the font has them; always a few of them in the pool
+            std::vector<uint32_t> astral;
+            for (uint32_t cp = 0x10000; cp < 0x10100; ++cp) if (gr_face_is_char_supported(ref.face, cp, 0)) astral.push_back(cp);
+            for (uint32_t cp = 0x1D400; cp < 0x1D800; ++cp) if (gr_face_is_char_supported(ref.face, cp, 0)) astral.push_back(cp);
+            for (uint32_t cp = 0x1F600; cp < 0x1F650; ++cp) if (gr_face_is_char_supported(ref.face, cp, 0)) astral.push_back(cp);
+            for (size_t k = 0; k < astral.size() && k < 24; ++k) sup.insert(sup.begin() + (k * 37) % (sup.size() + 1), astral[k]);
+            if (!astral.empty()) for (size_t k = 0; k < sup.size(); k += 9) sup[k] = astral[k % astral.size()];
+        }
         if (sup.empty()) sup.push_back(0x41);
         gr_font *reffont = gr_make_font(14.0f, ref.face);
         for (unsigned rd = 0; rd < rounds; ++rd) {
